@@ -148,6 +148,44 @@ def reflection_calls(P):
     return out
 
 
+# ordering / hashing of backend values: blstrs_plus orders scalars numerically, bls12_381_plus derives PartialOrd over the raw
+# Montgomery limbs (and has a different manual Ord); points have no canonical order at all.  A result that depends on how two
+# backend values compare (max, min, sort, a BTreeMap key, `<`) differs between the builds.
+_ORDER_FNS = ("max", "min", "clamp", "cmp", "partial_cmp", "lt", "le", "gt", "ge", "sort", "sort_unstable", "binary_search", "is_sorted", "minmax", "max_by_key", "min_by_key", "sort_by_key", "sort_unstable_by_key", "sort_by_cached_key")
+_BACKEND_TY = __import__("re").compile(r"(?<![A-Za-z0-9_])(Scalar|G1Projective|G2Projective|G1Affine|G2Affine|Gt|PairingResult|PublicKey|Signature|SignatureShare|PublicKeyShare|SecretKeyShare)(?![A-Za-z0-9_])")
+
+
+def ordering_calls(P):
+    out = []
+    for f in P.fns.values():
+        if f.from_expansion:
+            continue
+        for bb, t in f.calls():
+            c = t.get("callee") or {}
+            if c.get("crate") not in ("core", "std", "alloc"):
+                continue
+            nm = c.get("name") or ""
+            if nm not in _ORDER_FNS and "BTree" not in (c.get("path") or ""):
+                continue
+            tys = [a for a in (c.get("args") or []) + [c.get("self_ty") or ""] if a and _BACKEND_TY.search(str(a)) and not str(a).startswith(("[u8", "&[u8", "Vec<u8"))]
+            if tys:
+                out.append((f, bb, c.get("path"), tys))
+    return out
+
+
+def check_no_backend_ordering(ctx, progs, rule="E7.backend-order"):
+    n = 0
+    for name, P in progs:
+        n += sum(1 for f in P.fns.values() for _ in f.calls())
+        for f, bb, p, tys in ordering_calls(P):
+            ctx.ob(rule, "%s|%s->%s" % (name, f.key, p), False, "%s build: %s orders backend values (`%s` over %s): the two backends compare them differently" % (name, f.key, p, tys[:2]), where=where(f, bb))
+    ctx.ob(rule, "census", True, "%d call sites inspected: no ordering (max / min / sort / cmp / BTree key) over scalars, points or the types that wrap them" % n)
+    from . import posctl as PC
+
+    k = len(ordering_calls(PC.fixture_program()))
+    ctx.ob(rule + ".posctl", "ordering", k > 0, "positive control: the ordering detector matched %d site(s) in fixtures/posctl (must be > 0, otherwise the rule is blind)" % k)
+
+
 def check_no_reflection(ctx, progs, rule="E7.reflection"):
     n = 0
     for name, P in progs:
@@ -169,6 +207,7 @@ def run(ctx):
     ctx.ob("E10.typecheck", "rust", True, "cargo +nightly check --lib --no-default-features --features rust succeeded: %d bodies" % len(Pb.fns))
     check_backend_surface(ctx, (("blst", Pa), ("rust", Pb)))
     check_no_reflection(ctx, (("blst", Pa), ("rust", Pb)))
+    check_no_backend_ordering(ctx, (("blst", Pa), ("rust", Pb)))
     ka, kb = set(Pa.fns), set(Pb.fns)
     ctx.ob("E10.bodies", "same-set", ka == kb, "bodies only in blst build: %s ; only in rust build: %s" % (sorted(ka - kb)[:5], sorted(kb - ka)[:5]))
     ndiff = 0
